@@ -17,7 +17,7 @@ RULE = ('seeded generator: complex pupil fields 2..20 per side, integers N_r, N_
         'distinct = distinct (shape, N, os, dx, data hash) descriptors; non-trivial = more than one non-zero input sample.')
 ASSUMPTIONS = ['1/alpha is an integer number of samples on each axis (commensurate sampling), as the property states']
 PLAN = {'quick': {'gen': 8}, 'thorough': {'gen': 16, 'tests': 1, 'docs': 1}}
-REQUIRED_BUCKETS = ['defaults', 'N:rect', 'N:square', 'dx:aniso', 'dx:iso', 'os=1', 'os=2', 'os=3', 'N:odd', 'N:even', 'fft', 'dft',
+REQUIRED_BUCKETS = ['defaults', 'reuse', 'N:rect', 'N:square', 'dx:aniso', 'dx:iso', 'os=1', 'os=2', 'os=3', 'N:odd', 'N:even', 'fft', 'dft',
                     'nested', 'normalize_power', 'normalize_power:small-int', 'normalize_power:narrow-float', 'amp:extreme-magnitude', 'fft:any-period', 'fft:period%os!=0', 'amp:signed', 'nested:mask-values']
 REQUIRED_ANCHORS = ['probe:propagate_dft', 'probe:propagate_fft', 'anchor:_fft2', 'anchor:normalize_power',
                     'anchor:dft2']
